@@ -199,27 +199,53 @@ structure TypeOK (t : OType) : Prop where
 theorem typeOK_nil : TypeOK [] := ⟨by simp [eachAttribute], by simp [eachAttribute]⟩
 
 theorem define_ok {env : List OType} {d : Def} {t : OType} (h : define env d = .ok t) :
-    ∃ attrs, defineAttrs (parentOf env d) d.attrs = .ok attrs ∧
+    d.constants.any (fun c => d.attrs.any (fun a => a.name == c.1)) = false ∧
+    ∃ attrs, defineAttrs (parentOf env d) (d.decls (parentOf env d)) = .ok attrs ∧
       checkSerialization attrs (parentOf env d) false [] (d.serialization.getD []) = .ok () ∧
       t = { id := env.length, attrs := attrs, equality := d.equality.toList?,
             includeType := d.includeType.getD true, serialization := d.serialization } :: parentOf env d := by
   unfold define at h
   generalize parentOf env d = parent at h ⊢
   simp only at h
-  cases ha : defineAttrs parent d.attrs with
-  | error c => simp [ha] at h
-  | ok attrs =>
-    simp only [ha] at h
-    cases he : checkEquality attrs parent (d.equality.toList?.getD []) with
-    | error c => simp [he] at h
-    | ok u =>
-      simp only [he] at h
-      cases hs : checkSerialization attrs parent false [] (d.serialization.getD []) with
-      | error c => simp [hs] at h
-      | ok u' =>
-        simp only [hs] at h
-        cases h
-        exact ⟨attrs, rfl, hs, rfl⟩
+  split at h
+  · cases h
+  · rename_i hboth
+    refine ⟨by simpa using hboth, ?_⟩
+    cases ha : defineAttrs parent (d.decls parent) with
+    | error c => simp [ha] at h
+    | ok attrs =>
+      simp only [ha] at h
+      cases he : checkEquality attrs parent (d.equality.toList?.getD []) with
+      | error c => simp [he] at h
+      | ok u =>
+        simp only [he] at h
+        cases hs : checkSerialization attrs parent false [] (d.serialization.getD []) with
+        | error c => simp [hs] at h
+        | ok u' =>
+          simp only [hs] at h
+          cases h
+          exact ⟨attrs, rfl, hs, rfl⟩
+
+/-- the names of the attribute specifications are distinct: `attributes` and `constants` are hash literals (distinct keys
+    each) and a name in both is refused (BOTH_CONSTANT_AND_ATTRIBUTE) -/
+theorem decls_nodup {d : Def} {parent : OType} (ha : (d.attrs.map (·.name)).Nodup)
+    (hc : (d.constants.map (·.1)).Nodup)
+    (hboth : d.constants.any (fun c => d.attrs.any (fun a => a.name == c.1)) = false) :
+    ((d.decls parent).map (·.name)).Nodup := by
+  unfold Def.decls
+  rw [List.map_append, List.map_map, List.nodup_append]
+  have hnames : ((fun x => x.name) ∘ constDecl parent) = fun c => c.1 := by funext c; rfl
+  rw [hnames]
+  refine ⟨ha, hc, ?_⟩
+  intro x hx y hy hxy
+  simp only [List.mem_map] at hx hy
+  obtain ⟨a, ha', rfl⟩ := hx
+  obtain ⟨c, hc', rfl⟩ := hy
+  have h1 := (List.any_eq_false.mp hboth) c hc'
+  have h2 : d.attrs.any (fun a => a.name == c.1) = false := by simpa using h1
+  have h3 := (List.any_eq_false.mp h2) a ha'
+  simp at h3
+  exact h3 hxy
 
 theorem typeOK_cons {l : Level} {p : OType} (hp : TypeOK p) (hnd : (l.attrs.map (·.name)).Nodup)
     (hg : ∀ a ∈ l.attrs, AttrGod a) : TypeOK (l :: p) := by
@@ -411,8 +437,9 @@ theorem wf_serialization {l : Level} {p : OType} {ser : List String} (hok : Type
 /-- every definition accepted by `define` over an environment of accepted definitions satisfies the layout invariant
     (own attribute names distinct: a hash literal — what the universe of the driver guarantees) -/
 theorem define_wf {env : List OType} {d : Def} {t : OType} (henv : ∀ t' ∈ env, TypeOK t')
-    (hnd : (d.attrs.map (·.name)).Nodup) (h : define env d = .ok t) : TypeOK t ∧ WF t := by
-  obtain ⟨attrs, hattrs, hcs, ht⟩ := define_ok h
+    (hnd : (d.attrs.map (·.name)).Nodup) (hcn : (d.constants.map (·.1)).Nodup) (h : define env d = .ok t) :
+    TypeOK t ∧ WF t := by
+  obtain ⟨hboth, attrs, hattrs, hcs, ht⟩ := define_ok h
   have hparent : TypeOK (parentOf env d) := by
     unfold parentOf
     cases hp : d.parent with
@@ -426,7 +453,7 @@ theorem define_wf {env : List OType} {d : Def} {t : OType} (henv : ∀ t' ∈ en
   subst ht
   have hok := typeOK_cons
     (l := ⟨env.length, attrs, d.equality.toList?, d.includeType.getD true, d.serialization⟩)
-    hparent (by simpa [h1] using hnd) h2
+    hparent (by rw [h1]; exact decls_nodup hnd hcn hboth) h2
   refine ⟨hok, ?_⟩
   rcases Option.eq_none_or_eq_some d.serialization with hs | ⟨ser, hs⟩
   · exact wf_noSerialization hok hs
